@@ -34,7 +34,7 @@ RULE = (
     "filter lattice: every (state dimension n=1..8) x (transition-matrix kind) x (P,Q,R kind triple of the tier) x "
     "(tuning alpha,beta,kappa) x (resample off/on); for each, (A) one prediction followed by EVERY ordered stack of "
     "1..4 observations with dimensions from {1,2,3,4} and total dimension <= 8 (forecast and update; quick tier: all "
-    "142 stacks for one tuning per system, a 9-stack core set for the other three), and (B) EVERY operation sequence "
+    "130 stacks for one tuning per system, a 9-stack core set for the other three), and (B) EVERY operation sequence "
     "predict.(predict|update(no obs)|update(1 obs)|update(3-obs stack)|forecast(stack))^k explored as a tree (quick: "
     "k <= 2; thorough: k <= 3 for two of six tunings per system, k <= 2 for the rest); after every operation each "
     "product of the real filter (pred_x, pred_p, mean_pred_y, innov_cvr, cross_cvr, kalman_gain, est_p, est_x, "
@@ -249,7 +249,7 @@ class Tol:
       rounding error is ~ eps * sum|w_i| * max|X|: ``mean`` = 1e-11 + 32 sqrt(2n+1) eps sum|w| (relative to max|X|);
       observed on the lattice: <= 1 eps sqrt(2n+1) sum|w|.
     * That mean error d enters the covariance through the centre residual as |Wc_0| d d^T: absolute ``floor`` =
-      4 |Wc_0| (mean * xmax)^2; everything else in the covariance sums is backward stable in the diagonally scaled
+      4 |Wc_0| d^2 with d = 4 sqrt(2n+1) eps sum|w| xmax (4x the observed mean error, 16x in the square); everything else in the covariance sums is backward stable in the diagonally scaled
       sense: relative 1e-9 of sqrt(P_ii P_jj).
     * Gain and posterior go through inv(S): relative 100 eps cond(S scaled) on top, and inherit the covariance floor
       amplified by cond.
@@ -263,9 +263,10 @@ class Tol:
         self.kw = float(np.sum(np.abs(wm)))
         self.wc0 = abs(float(wc[0]))
         self.mean = 1e-11 + 32.0 * math.sqrt(2 * n + 1) * EPS * self.kw
+        self.delta = 4.0 * math.sqrt(2 * n + 1) * EPS * self.kw
 
     def floor(self, xmax):
-        return 4.0 * self.wc0 * (self.mean * xmax) ** 2
+        return 4.0 * self.wc0 * (self.delta * xmax) ** 2
 
 
 _DEBUG = os.environ.get("VERIF_C06_DEBUG")
@@ -340,7 +341,8 @@ def check_predict(ctx, flt, pre, extra, nontrivial, sub="predict"):
     xm, pm, pprop = kf.kf_predict(pre["est_x"], pre["est_p"], sysm.f, sysm.q)
     d = np.sqrt(np.diag(pm))
     lchol = np.linalg.cholesky(pre["est_p"])
-    xmax = float(np.max(np.abs(pre["est_x"])) + flt.gamma * np.max(np.abs(lchol))) * max(1.0, float(np.max(np.abs(sysm.f))) * n)
+    spread = flt.gamma * np.hstack([np.zeros((n, 1)), lchol, -lchol])
+    xmax = float(np.max(np.abs(sysm.f @ (pre["est_x"].reshape(n, 1) + spread))))  # size of the propagated sigma points
     floor = tol.floor(xmax)
     # numpy's cholesky reads the lower triangle only; an input est_p that is symmetric only to rounding (K S K^T is
     # not formed symmetrically) is therefore ambiguous by its own asymmetry: the band between the two readings is
@@ -415,10 +417,15 @@ def check_measurement_step(ctx, flt, pre, orc, stack, extra, nontrivial, *, fore
     xmax = float(np.max(np.abs(xm)) + flt.gamma * np.max(np.abs(lchol)))
     ymax = hmax * xmax + float(np.max(np.abs(np.concatenate(bs))))
     cond = kf.scaled_cond(ref["innov_cvr"])
-    floor_x = tol.floor(xmax * max(1.0, n * float(np.max(np.abs(sysm.f)))))
+    floor_x = tol.floor(xmax)
     floor_y = tol.floor(ymax)
-    rel_s = 1e-9 + (hmax * hmax * floor_x + floor_y) / float(np.min(dy) ** 2)
-    rel_c = 1e-9 + (hmax * floor_x + math.sqrt(floor_x * floor_y)) / float(np.min(d) * np.min(dy))
+    # redrawn sets go through cholesky(P-): accurate to eps * cond of the diagonally scaled P- (see check_predict)
+    redraw = 100.0 * EPS * kf.scaled_cond(0.5 * (pm + pm.T)) if ctx.resample else 0.0
+    # no-redraw mode: the filter's pred_p was rounded at the size of Q when Q was added, so P- - Q (reference) and the
+    # sigma-set covariance (filter) differ by ~ eps max|Q| absolutely
+    qcan = 0.0 if ctx.resample else 8.0 * EPS * float(np.max(np.abs(sysm.q)))
+    rel_s = 1e-9 + redraw + (hmax * hmax * (floor_x + qcan) + floor_y) / float(np.min(dy) ** 2)
+    rel_c = 1e-9 + redraw + (hmax * (floor_x + qcan) + math.sqrt(floor_x * floor_y)) / float(np.min(d) * np.min(dy))
     rel_k = (rel_s + rel_c) * (1.0 + cond) + 100.0 * EPS * cond
     tols = {"innov_cvr": rel_s, "cross_cvr": rel_c, "kalman_gain": rel_k, "est_p": 1e-9 + rel_k}
     scales = {
@@ -464,7 +471,8 @@ def check_measurement_step(ctx, flt, pre, orc, stack, extra, nontrivial, *, fore
         w = np.diag(flt.cvr_weight)
         dev = flt.sigma_points - xm.reshape(n, 1)
         e = max(kf.vec_err(flt.sigma_points[:, 0], xm), kf.scaled_err((dev * w) @ dev.T, pm, d, d))
-        ctx.case(sub, extra, e <= 1e-9, nontrivial=nontrivial, field="redrawn_sigma_points", ratio=e / 1e-9)
+        ctx.case(sub, extra, e <= 1e-9 + redraw, nontrivial=nontrivial, field="redrawn_sigma_points",
+                 ratio=e / (1e-9 + redraw))
     else:
         ctx.case(sub, extra, _exact(flt.sigma_points, pre["sigma_points"]), nontrivial=nontrivial,
                  field="sigma_points_kept")
@@ -628,6 +636,7 @@ def _tree(ctx, direct, mirror, orc, stacks, seq, depth):
     """Depth-first exploration of every operation sequence extending ``seq`` up to ``depth`` operations."""
     ctx.res.states += 1
     ctx.res.traces += 1  # every node is one operation sequence validated against the reference, step by step
+    ctx.res.extra["operation_sequences"] = ctx.res.extra.get("operation_sequences", 0) + 1
     if len(seq) == depth:
         return
     blob = pickle.dumps((direct, mirror))
@@ -686,6 +695,7 @@ def _run_lin(res, item):
                 owner = sysm.make_filter(tuning, resample)
                 owner.applyFilterResult(pres)
                 nt = resample or len(comp) >= 2
+                res.extra["stack_runs"] = res.extra.get("stack_runs", 0) + 1
                 try:
                     if ci % 2 == 0:
                         extra = {"sequence": "P.F.U", "stack": list(comp)}
